@@ -37,7 +37,14 @@ type Obligation struct {
 	Tags   []string // property tags of the clause
 	Expect string   // "unsat" for proof goals, "sat" for cover/vacuity goals
 	Probes []Probe
+	Cand   *CandKey // set for candidate-invariant checks (Houdini)
 	enc    *Enc
+}
+
+// CandKey identifies a candidate invariant at one loop.
+type CandKey struct {
+	C    *Clause
+	Loop int
 }
 
 func NewEnc() *Enc {
